@@ -110,7 +110,7 @@ func genPool(seed uint64, idx uint64, thorough bool) tlive.Scenario {
 			switch phaseNames[ph] {
 			case "far":
 				// one hour, or "practically never": 253 years, a deadline beyond the year 2262 (where time.Time.UnixNano ends)
-				far := prng.Pick(r, []int64{3600 * 1000000, 3600 * 1000000, 8000000000000000})
+				far := prng.Pick(r, []int64{3600 * 1000000, 3600 * 1000000, 3600 * 1000000, 8000000000000000, 8000000000000000, tlive.NeverUs})
 				sc.Acts = append(sc.Acts, tlive.Act{G: g, Op: "call", Fut: sc.NFut, DUs: far, Far: true, WaitUs: int64(r.Intn(1500))})
 				sc.NFut++
 			case "near":
